@@ -85,6 +85,8 @@ def driver_prop(rec):
     pid = key.split(":")[-1]
     if pid.startswith(("bp", "big")):
         return "C13"
+    if pid.startswith("pack") or ":stream:" in key:
+        return "C10"
     if ":adv:" in key:
         return "C11"
     if pid.startswith("bp"):
